@@ -186,14 +186,20 @@ func (w *Worker) RunPath(fn *ssa.Function, item WorkItem) (res *PathResult) {
 		call(i, nil, token.NoPos, fn, nil)
 	}()
 	if res.Status == "ok" {
-		res.Witness = e.witness()
-		if res.Witness != nil && len(e.obs) > 0 {
-			var m smt.Model
-			if len(e.Models) > 0 {
-				m = e.completeModel(e.Models[len(e.Models)-1])
-			} else {
-				m = e.completeModel(smt.Model{})
+		// one assignment of the whole path condition drives both the recorded inputs and the observed values
+		var m smt.Model
+		switch {
+		case len(e.Models) > 0:
+			m = e.completeModel(e.Models[len(e.Models)-1])
+		case len(e.PC) == 0:
+			m = e.completeModel(smt.Model{})
+		default:
+			if r, mm := e.checkAll(); r == smt.Sat {
+				m = mm
 			}
+		}
+		if m != nil {
+			res.Witness = e.decodeInputs(m)
 			ev := smt.NewEvaluator(m)
 			for name, ob := range e.obs {
 				if s, ok := ob.(sym); ok {
@@ -211,7 +217,6 @@ func (w *Worker) RunPath(fn *ssa.Function, item WorkItem) (res *PathResult) {
 					res.Observes[name] = fmt.Sprint(ob)
 				}
 			}
-			res.Witness = e.decodeInputs(m)
 		}
 	}
 	res.Inputs = e.order
